@@ -220,6 +220,10 @@ fn random_op(rng: &mut Rng, lang: &str, allow_clear: bool, last_q: &mut Option<S
 }
 
 fn random_op_inner(rng: &mut Rng, lang: &str, allow_clear: bool) -> Op {
+    if rng.chance(1, 16) {
+        // the same title again with another rating (duplicates, and re-adds after a clear)
+        return Op::Add("metal mailbox".to_string(), rng.below(9));
+    }
     let words = ["metal", "mailbox", "yellow", "shirt", "t", "wi", "fi", "the", "für", "ёлка", "a", "t-shirt", "straße", "microbiologically-engineered"];
     let pickw = |rng: &mut Rng| -> String { if rng.chance(1, 3) { gen::any_word(rng, lang) } else { rng.pick(&words).to_string() } };
     match rng.below(if allow_clear { 12 } else { 11 }) {
@@ -372,7 +376,16 @@ impl History {
     /// Long hostile strings straight into the tokenisers and a one-record store.
     fn c01_long(&self, cx: &mut Cx, lang: &'static str) {
         let n = cx.rng.range(30, 600);
-        let text: String = if cx.rng.chance(1, 3) {
+        let text: String = if cx.rng.chance(1, 12) {
+            // one word of 600-3000 letters, or a title of 1000-3000 words
+            let alpha = gen::lower_alphabet(lang);
+            cx.count("long-text cases with a giant word or a 1000+ word title");
+            if cx.rng.chance(1, 2) {
+                format!("{} {}", gen::rand_word(&mut cx.rng, &alpha, 600, 3000), gen::rand_word(&mut cx.rng, &alpha, 3, 6))
+            } else {
+                (0..cx.rng.range(1000, 3000)).map(|_| gen::rand_word(&mut cx.rng, &alpha, 1, 5)).collect::<Vec<_>>().join(" ")
+            }
+        } else if cx.rng.chance(1, 3) {
             // many different ordinary words: hundreds of distinct grams shared by title and query
             let alpha = gen::lower_alphabet(lang);
             (0..n / 3).map(|_| gen::rand_word(&mut cx.rng, &alpha, 2, 7)).collect::<Vec<_>>().join(" ")
@@ -383,7 +396,7 @@ impl History {
         let st = St::build_sentinel(lang, &[(1, text.clone(), 3)], 10);
         let t: Vec<char> = text.chars().collect();
         for _ in 0..4 {
-            let (a, b) = match cx.rng.below(4) {
+            let (a, b) = match if t.len() > 4000 { 2 } else { cx.rng.below(4) } {
                 0 => (0, t.len()), // the whole text typed back
                 1 => {
                     let a = cx.rng.below(t.len());
@@ -421,8 +434,15 @@ impl History {
             st.add(&(i + 1, t.clone(), cx.rng.below(100)));
             titles.push(t);
         }
+        if cx.idx % 4 == 3 {
+            // an add soak first: more than 2^16 records in one store
+            for k in 0..66_000usize {
+                st.add(&(10_000 + k, if k % 977 == 0 { gen::realistic_title(&mut cx.rng, lang, &corpus) } else { format!("r{}", k % 89) }, k % 1000));
+            }
+            cx.count("soak stores with more than 2^16 records");
+        }
         let queries: Vec<String> = (0..40).map(|_| c01_query(&mut cx.rng, lang, &st.store.lang, &titles)).filter(|q| q.chars().count() < 24).collect();
-        let total: usize = 70_000;
+        let total: usize = if cx.idx % 4 == 3 { 3_000 } else { 70_000 };
         let mut rolling: u64 = 17;
         let mut with_hits = 0u64;
         for k in 0..total {
@@ -663,8 +683,8 @@ impl Prop for History {
     }
     fn floors(&self) -> Vec<(&'static str, u64, u64)> {
         match self.0 {
-            Which::NoCrash => vec![("searches", 20000, 200000), ("searches with hits", 5000, 50000), ("joined-record hits (two spans from a one-word query)", 50, 500), ("non-ASCII queries", 2000, 20000), ("limit 0", 200, 2000), ("limit 65536", 200, 2000), ("long-text searches", 500, 5000), ("long-text searches with a query over 255 characters", 100, 1000), ("corpus-store searches", 300, 3000), ("soak searches on one store", 1000000, 4000000), ("most searches on one store max ", 66000, 66000)],
-            Which::NoStale => vec![("search after add following an earlier search", 2000, 20000), ("search after clear following an earlier search", 500, 5000), ("search after limit following an earlier search", 500, 5000), ("empty-query search after a mutation following an earlier search", 1000, 10000), ("exhaustive histories", 20000, 200000), ("histories on a crowded store", 2000, 20000), ("histories that clear and refill a crowded store", 2000, 20000), ("soak searches on one store", 1000000, 4000000), ("search repeating the previous query after a mutation", 2000, 20000)],
+            Which::NoCrash => vec![("searches", 20000, 200000), ("searches with hits", 5000, 50000), ("joined-record hits (two spans from a one-word query)", 50, 500), ("non-ASCII queries", 2000, 20000), ("limit 0", 200, 2000), ("limit 65536", 200, 2000), ("long-text searches", 500, 5000), ("long-text searches with a query over 255 characters", 100, 1000), ("corpus-store searches", 300, 3000), ("long-text cases with a giant word or a 1000+ word title", 20, 200), ("soak searches on one store", 600000, 2500000), ("most searches on one store max ", 66000, 66000), ("soak stores with more than 2^16 records", 2, 8)],
+            Which::NoStale => vec![("search after add following an earlier search", 2000, 20000), ("search after clear following an earlier search", 500, 5000), ("search after limit following an earlier search", 500, 5000), ("empty-query search after a mutation following an earlier search", 1000, 10000), ("exhaustive histories", 20000, 200000), ("histories on a crowded store", 2000, 20000), ("histories that clear and refill a crowded store", 2000, 20000), ("histories growing a store past 64/128/256/512 records with searches in between", 200, 5000), ("soak searches on one store", 1000000, 4000000), ("search repeating the previous query after a mutation", 2000, 20000)],
             Which::Registry => vec![("observations", 20000, 200000), ("observations with >= 2 live ids holding results", 2000, 20000), ("destroy", 300, 3000), ("searches", 3000, 30000), ("histories over 4-20 store ids", 1000, 10000), ("bursts of 45-120 records", 300, 3000)],
         }
     }
@@ -692,6 +712,22 @@ impl Prop for History {
                     ops.push(Op::Search(cx.rng.pick(&["me", "metal", "m", "met"]).to_string()));
                     last_q = match ops.last() { Some(Op::Search(q)) => Some(q.clone()), _ => None };
                     cx.count("histories on a crowded store");
+                }
+                if cx.tier != Tier::Miri && cx.rng.chance(1, 40) {
+                    // grow the store across the 64 / 128 / 256 / 512 record marks with a search at each step
+                    let words = ["metal", "mailbox", "yellow", "shirt", "meter", "wi-fi"];
+                    let mut k = cx.rng.range(55, 62);
+                    for _ in 0..k {
+                        ops.push(Op::Add(format!("{} {}", cx.rng.pick(&words), cx.rng.pick(&words)), cx.rng.below(7)));
+                    }
+                    while k < 520 {
+                        ops.push(Op::Add(format!("{} {}", cx.rng.pick(&words), cx.rng.pick(&words)), cx.rng.below(7)));
+                        k += 1;
+                        if [63, 64, 65, 127, 128, 129, 255, 256, 257, 511, 512, 513].contains(&k) {
+                            ops.push(Op::Search(cx.rng.pick(&["me", "metal", "", "wifi"]).to_string()));
+                        }
+                    }
+                    cx.count("histories growing a store past 64/128/256/512 records with searches in between");
                 }
                 let refill_at = if cx.tier != Tier::Miri && cx.rng.chance(1, 5) { Some(cx.rng.below(n + 1)) } else { None };
                 for k in 0..=n {
